@@ -539,8 +539,17 @@ pub fn program_event(id: usize, p: &Program) -> Value {
     let mut ev = json!({"e": "cprog", "id": id, "name": p.name, "kind": p.kind, "init": p.init, "policy": p.policy,
         "L": std::cmp::min(p.mem_limit, 1 << 30), "keys": p.keys.iter().map(|k| hex(k)).collect::<Vec<_>>(),
         "setup": setup, "nclients": p.clients.len()});
-    if let Some(ser) = serial_outcomes(p, 800) {
-        ev["serial"] = json!(ser);
+    // (under a watchdog: a command that never returns when run alone is found by the scheduled runs, which have
+    // watchdogs of their own; the stuck thread is abandoned)
+    let p2 = p.clone();
+    let (tx, rx) = channel::<Option<Vec<Value>>>();
+    std::thread::spawn(move || {
+        let _ = tx.send(serial_outcomes(&p2, 800));
+    });
+    match rx.recv_timeout(Duration::from_secs(20)) {
+        Ok(Some(ser)) => ev["serial"] = json!(ser),
+        Ok(None) => {}
+        Err(_) => ev["serial_hang"] = json!(true),
     }
     ev
 }
